@@ -870,6 +870,10 @@ func (b *bitstream) readVarUintLen(max uint64) (uint64, uint64, error) {
 			return 0, 0, err
 		}
 
+		if val > math.MaxUint64>>7 {
+			return 0, 0, &SyntaxError{"varuint overflows uint64", b.pos - length - 1}
+		}
+
 		val <<= 7
 		val ^= uint64(c & 0x7F)
 		length++
@@ -962,6 +966,10 @@ func (b *bitstream) readVarIntLen(max uint64) (int64, int64, uint64, error) {
 		c, err := b.read1()
 		if err != nil {
 			return 0, 0, 0, err
+		}
+
+		if val > math.MaxInt64>>7 {
+			return 0, 0, 0, &SyntaxError{"varint overflows int64", b.pos - length - 1}
 		}
 
 		val <<= 7
